@@ -23,8 +23,8 @@ func (*prop) ID() string    { return "C05" }
 func (*prop) Level() string { return "exploration" }
 func (*prop) Rule() string {
 	return "modules with k = 4 packages built to trip per-package state: the packages share type names on purpose, every package needs the runtimedoc helper and deepcopy dependencies (real generators), a scripted stateful generator with a counting New emits a helper once per instance, skips names its instance has already seen and numbers its calls, " +
-		"a generator registered as a prototype WITHOUT New whose prototype carries non-zero state (gengo must build a zero instance per package), and every package references a different set of imports whose local names clash across packages (x/rand in p1, math/rand + x/rand in p2, crypto/rand + math/rand in p3 ...). " +
-		"All 15 non-empty subsets of the packages are run as direct entrypoints (non-All) in two orders, plus All runs from one entrypoint whose import closure pulls in the others, each from a byte-identical restored tree. Oracles: the files of package P in run S are byte-identical to the files of P in the run {P}, for every P in S; the number of generator instances created (New calls) equals generators x executed packages; the registered prototype is never used directly. " +
+		"a generator registered as a prototype WITHOUT New whose prototype carries non-zero state (gengo must build a zero instance per package), and every package references a different set of imports whose local names clash across packages (x/model + y/model in p1 but only y/model in p2, only x/model in p3 but y/model + x/model in p4, math/rand + x/rand, text/template + html/template ...). " +
+		"All 15 non-empty subsets of the packages are run as direct entrypoints (non-All) in two orders, plus All runs from one entrypoint whose import closure pulls in the others, each from a byte-identical restored tree; the reference runs of {P} alone and every third combined run happen in fresh child processes (so process-global state can neither mask nor fake a difference), the others in the long-lived worker process. Oracles: the files of package P in run S are byte-identical to the files of P in the run {P}, for every P in S; the number of generator instances created (New calls) equals generators x executed packages; the registered prototype is never used directly. " +
 		"Non-trivial = a run with >= 2 packages; distinct by hash of (module, subset, order)."
 }
 func (*prop) Assumptions() []string {
@@ -119,6 +119,8 @@ func (p *prop) runModule(c core.Case, w *core.Worker, res *core.Result, r *rand.
 	m.MustWrite("_deps/dep/go.mod", "module "+depMod+"\n\ngo 1.18\n")
 	m.MustWrite("_deps/dep/x/rand/r.go", "package rand\n\ntype Thing struct{}\n")
 	m.MustWrite("_deps/dep/y/rand/r.go", "package rand\n\ntype Thing struct{}\n")
+	m.MustWrite("_deps/dep/x/model/m.go", "package model\n\ntype Thing struct{}\n")
+	m.MustWrite("_deps/dep/y/model/m.go", "package model\n\ntype Thing struct{}\n")
 	tags := []string{"+gengo:state", "+gengo:proto", "+gengo:runtimedoc", "+gengo:deepcopy"}
 	dirs := []string{"p1", "p2", "p3", "p4"}
 	// p4 imports p1..p3 so that an All run from p4 pulls the others in
@@ -132,12 +134,27 @@ func (p *prop) runModule(c core.Case, w *core.Worker, res *core.Result, r *rand.
 		pk.Write(m)
 		// a documented struct with a same-package struct field: runtimedoc helper + deepcopy dependency
 		m.MustWrite(filepath.Join(d, "doc_types.go"), fmt.Sprintf("package %s\n\n// Doc%d has docs.\ntype Doc%d struct {\n\t// Inner field\n\tInner Shared1\n\t// Name of it\n\tName string\n\tTags []string\n\tM map[string]int\n\tEmb%d\n}\n\n// Emb%d is embedded.\ntype Emb%d struct {\n\t// X marks\n\tX int\n}\n", d, i, i, i, i, i))
-		var imps []string
+		// fixed collision structure (names chosen under a collision in a package processed earlier must not leak into
+		// a later package, in both directions), plus random extra references
+		imps := append([]string{}, [][]string{
+			{"math/rand.Rand", depMod + "/x/rand.Thing", depMod + "/x/model.Thing", depMod + "/y/model.Thing"},
+			{depMod + "/x/rand.Thing", depMod + "/y/model.Thing"},
+			{depMod + "/y/rand.Thing", "text/template.Template", depMod + "/x/model.Thing"},
+			{depMod + "/x/rand.Thing", depMod + "/y/rand.Thing", "html/template.Template", "text/template.Template", depMod + "/y/model.Thing", depMod + "/x/model.Thing"},
+		}[i]...)
 		for _, s := range importSets[perm[i]] {
-			if strings.HasSuffix(s, "Reader0") {
+			if strings.HasSuffix(s, "Reader0") || r.Intn(2) == 0 {
 				continue
 			}
-			imps = append(imps, s)
+			dup := false
+			for _, x := range imps {
+				if x == s {
+					dup = true
+				}
+			}
+			if !dup {
+				imps = append(imps, s)
+			}
 		}
 		state.Pkg[mod+"/"+d] = specgen.Behav{Mode: "stateful", Salt: "s", Imports: imps}
 	}
@@ -156,13 +173,21 @@ func (p *prop) runModule(c core.Case, w *core.Worker, res *core.Result, r *rand.
 		proto bool
 		exec  int
 	}
-	run := func(entries []string, all bool) obs {
+	run := func(entries []string, all bool, child bool) obs {
 		mm := restore()
-		rr := specgen.RunInProcess(mm.Root, specgen.Args{Entrypoint: entries, OutputFileBaseName: "zz_generated", All: all}, gens)
+		args := specgen.Args{Entrypoint: entries, OutputFileBaseName: "zz_generated", All: all}
+		var rr specgen.Result
+		if child {
+			// a fresh process: no process-global state of earlier runs can mask or fake a difference
+			rr = specgen.RunChild(w.Scratch, specgen.RunSpec{Dir: mm.Root, Args: args, Gens: gens})
+			res.Inc("fresh_process_runs")
+		} else {
+			rr = specgen.RunInProcess(mm.Root, args, gens)
+		}
 		res.Inc("gengo_runs")
 		o := obs{files: map[string]map[string]string{}, news: map[string]int{}}
 		if rr.Failed {
-			o.err = rr.Err + rr.Panic
+			o.err = rr.Err + rr.Panic + rr.ExitStatus
 			return o
 		}
 		for _, e := range rr.Events {
@@ -182,7 +207,7 @@ func (p *prop) runModule(c core.Case, w *core.Worker, res *core.Result, r *rand.
 	}
 	alone := map[string]map[string]string{}
 	for _, d := range dirs {
-		o := run([]string{"./" + d}, false)
+		o := run([]string{"./" + d}, false, true)
 		if o.err != "" {
 			res.Fail("execute", "execute-error", "Execute failed for "+d+" alone: "+clip(o.err, 800), nil)
 			return
@@ -192,8 +217,11 @@ func (p *prop) runModule(c core.Case, w *core.Worker, res *core.Result, r *rand.
 		}
 		alone[d] = o.files[d]
 	}
+	nchecks := 0
 	check := func(entries []string, all bool, expectPkgs []string) {
-		o := run(entries, all)
+		nchecks++
+		// every third run in a fresh process, the others in this (long-lived) worker process
+		o := run(entries, all, nchecks%3 == 0)
 		variant := fmt.Sprintf("entrypoints %v all=%v", entries, all)
 		res.Evals++
 		if len(expectPkgs) >= 2 {
